@@ -190,21 +190,22 @@ theorem cleanup_last {cfg : Cfg} {s : State} (hr : Reach cfg s) (h : s.cleanupBe
 
 /-! ### The run call re-raises the failure -/
 
-/-- When `operator()` is over it has an outcome; it raises only if some root task failed, and it returns
-    normally only if NO root task failed (the cancelled outcome is the operator's own cancellation). -/
-/- NOTE on `reraise`: `run_tasks` re-raises the errors of the HUNG tasks as well (`reraise(root_done | root_cancelled |
-   hung_done | hung_cancelled)`). In the model no hung task fails: daemons and orphaned helpers only end. On kopf a hung task
-   fails when a daemon is spawned after the daemon killer's sweep and its `stopped.wait(n)` helper is cancelled — finding
-   C20-F9 (`TimeoutError` on a clean stop); such runs are reported by the oracle under that finding. -/
+/-- When `operator()` is over it has an outcome; it raises only if some root task — or some HUNG task (`run_tasks`
+    re-raises `root_done | root_cancelled | hung_done | hung_cancelled`: a daemon's helper cancelled as a hung task can fail
+    the whole run, see finding C20-F9) — has failed, and it returns normally only if NO root task failed (the cancelled
+    outcome is the operator's own cancellation). WHICH of several failures is raised is not specified by the code (set
+    iteration order) and not by the model. -/
 theorem reraise {cfg : Cfg} {s : State} (hr : Reach cfg s) (hex : s.rt = .exited) (hna : s.abandoned = false) :
-    ∃ r, s.result = some r ∧ (r = .raised → ∃ q, s.st (.root q) = .failed)
+    ∃ r, s.result = some r ∧ (r = .raised → (∃ q, s.st (.root q) = .failed) ∨ s.hungFailed = true)
       ∧ (r = .returned → ∀ q, s.st (.root q) ≠ .failed) := by
   have hB := InvB.reach hr
   have hC := InvC.reach hr
   obtain ⟨r, hres⟩ := hC.resultSome hex
   refine ⟨r, hres, ?_, ?_⟩
   · intro h; subst h
-    exact hB.rootFailedIff.mp (hC.resRaised hres)
+    rcases hC.resRaised hres with h | h
+    · exact Or.inl (hB.rootFailedIff.mp h)
+    · exact Or.inr h
   · intro h q hq; subst h
     have := hB.rootFailedIff.mpr ⟨q, hq⟩
     rw [hC.resReturned hres] at this
